@@ -33,6 +33,13 @@ AMB = 293.15
 
 @st.composite
 def case_strategy(draw, tier):
+    if draw(st.integers(0, 3)) == 0:
+        # transport nets: distribution-type topologies of any library fluid (gases too) with several feed temperatures
+        from .. import gen
+        rec = draw(gen.transport_net(max_n=6 if tier == "quick" else 12))
+        opts = draw(genheat.heat_options(modes=("sequential", "sequential", "bidirectional", "heat")))
+        opts["friction_model"] = "nikuradse"      # the turbulent-only models need every branch to flow (see gen.hyd_case)
+        return {"recipe": rec, "options": opts}
     rec = draw(genheat.heat_net(max_n=5 if tier == "quick" else 9, allow_oos=draw(st.booleans()),
                                 labels=draw(st.booleans())))
     opts = draw(genheat.heat_options(modes=("sequential", "bidirectional", "heat")))
@@ -64,6 +71,42 @@ def run_thermal(net, opts):
         return SolveResult("crash", e)
 
 
+def feeding_grids_fix_temperature(rec, opts):
+    """pandapipes only accepts a temperature-fixing node that is a pure infeed: mass is fed in there and no branch delivers
+    flow to it (derivatives_thermal: infeed = from-nodes that are no to-node; check_infeed_number rejects the thermal
+    calculation otherwise). Which grids of a generated transport net qualify is decided by its hydraulics, so the recipe is
+    normalised deterministically: a hydraulic run first, then every grid that takes mass out, carries none, or sits on a
+    junction that receives flow from a branch is declared type 'p'; the others stay 'pt'. Returns the normalised recipe, or a
+    string naming why the case is outside the domain."""
+    import copy
+    net = build(rec)
+    r = solve(net, **dict(opts, mode="hydraulics"))
+    if not r.ok:
+        return "hydraulics_of_transport_net_failed"
+    receives = set()
+    for t in BRANCH_TABLES:
+        if t not in net or not len(net[t]):
+            continue
+        a, b = FROM_TO[t]
+        for idx in net[t].index:
+            m = net["res_" + t].at[idx, "mdot_from_kg_per_s"]
+            if np.isnan(m) or abs(m) <= 1e-10 or (t == "valve" and net.valve.at[idx, "et"] == "pi"):
+                continue
+            receives.add(int(net[t].at[idx, b if m > 0 else a]))
+    out = copy.deepcopy(rec)
+    n_t = 0
+    for e in out["elements"]:
+        if e["table"] == "ext_grid":
+            m = net.res_ext_grid.at[e["index"], "mdot_kg_per_s"]
+            if not (m < -1e-7) or int(e["junction"]) in receives:
+                e["type"] = "p"
+            elif e.get("in_service", True):
+                n_t += 1
+    if n_t == 0:
+        return "no_pure_infeed_grid"
+    return out
+
+
 def streams(net):
     """all branch rows with thermal results: dict(table, index, up_junction, down_junction, mdot_abs, t_in, t_out)."""
     out = []
@@ -90,6 +133,10 @@ def streams(net):
 def evaluate(case):
     from pandapipes.component_models import Pipe
     rec, opts = case["recipe"], case["options"]
+    if rec.get("meta", {}).get("feeder") == "transport":
+        rec = feeding_grids_fix_temperature(rec, opts)
+        if isinstance(rec, str):
+            return Outcome(discard=rec)
     net = build(rec)
     r = run_thermal(net, opts)
     if not r.ok:
@@ -103,7 +150,8 @@ def evaluate(case):
     fl = RefFluid.get(rec["fluid"])
     cp = fl.heat_capacity
     f = []
-    labels = {"mode:" + opts["mode"], "numba" if opts.get("use_numba", True) else "numpy", "feeder:" + rec.get("meta", {}).get("feeder", "?")}
+    labels = {"mode:" + opts["mode"], "numba" if opts.get("use_numba", True) else "numpy", "feeder:" + rec.get("meta", {}).get("feeder", "?"),
+              "gas" if fl.is_gas else "liquid"}
     tj = net.res_junction.t_k
     sts = streams(net)
     flow_thr = 1e-8
@@ -171,10 +219,14 @@ def evaluate(case):
                     if not abs(to - net[t].at[idx, "t_flow_k"]) <= 1e-9:
                         f.append(Finding("feed", "C10.feed.circ_pump", {t: int(idx), "t_outlet_k": to, "t_flow_k": net[t].at[idx, "t_flow_k"]}))
     # ---- (c) mixing
-    inflow = {}
+    # the solver treats a branch as flowing when |mdot| > 1e-10 (derivative_toolbox.get_...flow mask); streams below that
+    # are left out of the balance here as well and their largest possible contribution is added to the tolerance
+    inflow, slack = {}, {}
     for s in sts:
-        if s["m"] > flow_thr:
+        if s["m"] > 1e-10:
             inflow.setdefault(s["down"], []).append(s)
+        elif s["m"] > 0 and not np.isnan(tj.at[s["down"]]):
+            slack[s["down"]] = slack.get(s["down"], 0.0) + s["m"] * cp(s["t_out"]) * abs(s["t_out"] - tj.at[s["down"]])
     for j, ins in inflow.items():
         if j in fixed or np.isnan(tj.at[j]):
             continue
@@ -184,16 +236,18 @@ def evaluate(case):
         resid = abs(sum(terms))
         rel = resid / scale if scale > 0 else 0.0
         stats["mixing"] = max(stats["mixing"], rel)
+        big = [s for s in ins if s["m"] > flow_thr]
         temps = [s["t_out"] for s in ins]
-        if len(ins) >= 2 and max(temps) - min(temps) > 1e-3:
+        if len(big) >= 2 and max(s["t_out"] for s in big) - min(s["t_out"] for s in big) > 1e-3:
             labels.add("mixing_junction")
             nontriv = True
-            if len(ins) >= 3:
+            if len(big) >= 3:
                 labels.add("three_inflows")
+        sl = slack.get(j, 0.0)
         if len(ins) == 1:
-            if not abs(tmix - ins[0]["t_out"]) <= 1e-6:
+            if not abs(tmix - ins[0]["t_out"]) <= 1e-6 + sl / (ins[0]["m"] * cp(tmix)):
                 f.append(Finding("mixing", "C10.mixing.single_inflow", {"junction": j, "t_k": tmix, "stream": ins[0]}))
-        elif not resid <= 1e-6 * scale + 1e-6:
+        elif not resid <= 1e-6 * scale + 1e-6 + sl:
             f.append(Finding("mixing", "C10.mixing.energy_balance", {"junction": j, "t_k": tmix, "residual_w": sum(terms),
                                                                      "scale_w": scale,
                                                                      "streams": [(s["table"], s["index"], s["m"], s["t_out"]) for s in ins]}))
